@@ -17,6 +17,8 @@ Vocabulary (definitions in `Lemmas/ParamsSpec.lean`):
 import MlVerif.Gen.C01
 import MlVerif.Model.Params
 import MlVerif.Lemmas.ParamsSpec
+import MlVerif.Lemmas.ParamsTransfer
+import MlVerif.Lemmas.ParamsDict
 
 namespace MlVerif.C01
 open MlVerif.Gen.C01 MlVerif.Params
@@ -63,6 +65,14 @@ theorem set_then_get (e : PVal) (k : Key) (hw : wf e = true) (hk : k ∈ keys (g
   obtain ⟨e', hu⟩ := upd_of_leaf hl v hv
   exact ⟨e', setParams_upd hu hw, hu, upd_reports_value hu⟩
 
+/-- `get_params(deep=True)` of a valid configuration has pairwise distinct keys — it is a dictionary -/
+theorem get_params_is_a_dictionary (e : PVal) (hw : wf e = true) : (keys (getParams e true)).Nodup :=
+  getParams_keys_nodup (sizeOf e + 1) e (by omega) hw
+
+/-- …and after `set_params(**{k: v})` with a valid value the dictionary lookup `get_params()[k]` is `v` -/
+theorem set_then_lookup {e : PVal} {k : Key} {v e' : PVal} (h : Upd e k v e') (hw : wf e = true) (hv : wf v = true) :
+    (getParams e' true).lookup k = some v := upd_lookup_value h hw hv
+
 /-- the string-keyed `set_params` refines the abstract update (the routing theorem behind `set_then_get`) -/
 theorem set_params_refines_update {e : PVal} {k : Key} {v e' : PVal} (h : Upd e k v e') (hw : wf e = true) :
     setParams e [(k, v)] = .ok (e', true) := setParams_upd h hw
@@ -81,30 +91,25 @@ theorem set_keeps_wellformed {e : PVal} {k : Key} {v e' : PVal} (h : Upd e k v e
 
 /-! ### transfer -/
 
-/- Full statement (same class shape ⇒ `setParams e₂ (getParams e₁ true)` makes `getParams e₂' true = getParams e₁ true`
-   for every protocol and every nesting depth).  Proved below for configurations without nested estimators in the
-   scikit-learn protocol and for `SkBase`; with nested estimators and for the learner / stacking / cak protocols the
-   multi-key call (direct keys first, then one nested self-assignment per sub-estimator) is exercised by the
-   correspondence run and the search only — missing: the grouping lemma for `addTo` over concatenated blocks. -/
-
-/-- **transfer** (partial: no nested estimator), scikit-learn protocol: the second instance gets exactly the
-first one's parameters, keeps its own identity, and the call returns `self`. -/
-theorem transfer_partial (i1 i2 : Nat) (c : String) (p : Proto) (f1 f2 : Bool) (kw1 kw2 : KW)
-    (hp : p = .base ∨ p = .anmf) (hk : keys kw1 = keys kw2) (hw : shapeOk p kw1 = true)
-    (hflat : kw1.all (fun kv => !isEst kv.2) = true) :
+/-- **transfer**, every protocol, any nesting depth, any list length: an instance `e₂` of the same class shape
+(same class and protocol, same parameter names) that is fed `get_params(deep=True)` of a valid `e₁` through the
+multi-key `set_params` (direct keys first, then one nested call per sub-estimator / member) ends with exactly
+`e₁`'s parameter list — it keeps its own identity and fitted flag, shares `e₁`'s sub-estimators (same ids), reports
+the same parameters, and the call returns `self`. -/
+theorem transfer (i1 i2 : Nat) (c : String) (p : Proto) (f1 f2 : Bool) (kw1 kw2 : KW)
+    (hw : wf (.est i1 c p f1 kw1) = true) (hk : keys kw2 = keys kw1) :
     setParams (.est i2 c p f2 kw2) (getParams (.est i1 c p f1 kw1) true) = .ok (.est i2 c p f2 kw1, true) ∧
     getParams (.est i2 c p f2 kw1) true = getParams (.est i1 c p f1 kw1) true := by
-  refine ⟨transfer_flat_base i1 i2 c p f1 f2 kw1 kw2 hp hk hw hflat, ?_⟩
-  simp [getParams_est]
+  refine ⟨?_, by simp [getParams_est]⟩
+  unfold setParams
+  rw [transfer_all (sizeOf (PVal.est i1 c p f1 kw1) + 1) i1 c p f1 kw1 (by omega) hw i2 f2 kw2 hk _ (by omega)]
+  simp [Except.map, protoOf, setReturnsSelf_of_known p (proto_known_of_wf i1 c p f1 kw1 hw)]
 
-/-- **transfer**, `SkBase` family (parameters live in `SkLearnParameters`; same stored names) -/
-theorem transfer_skbase_params (i1 i2 : Nat) (c : String) (f1 f2 : Bool) (kw1 kw2 : KW)
-    (hk : keys kw1 = keys kw2) (hw : shapeOk .skbase kw1 = true) :
-    setParams (.est i2 c .skbase f2 kw2) (getParams (.est i1 c .skbase f1 kw1) true)
-      = .ok (.est i2 c .skbase f2 kw1, true) ∧
-    getParams (.est i2 c .skbase f2 kw1) true = getParams (.est i1 c .skbase f1 kw1) true := by
-  refine ⟨transfer_skbase i1 i2 c f1 f2 kw1 kw2 hk hw, ?_⟩
-  simp [getParams_est]
+/-- feeding an estimator its own `get_params(deep=True)` changes nothing (what `Pipeline.set_params(**get_params())`
+and grid-search refits rely on) -/
+theorem self_assignment (i : Nat) (c : String) (p : Proto) (f : Bool) (kw : KW) (hw : wf (.est i c p f kw) = true) :
+    setParams (.est i c p f kw) (getParams (.est i c p f kw) true) = .ok (.est i c p f kw, true) :=
+  (transfer i i c p f f kw kw hw rfl).1
 
 /-! ### clone -/
 
@@ -172,7 +177,8 @@ example : validOps ⟨lr 0, 1⟩ [.get true, .set [(kJobs, .atom .other "2")], .
   refine ⟨trivial, ⟨_, _, rfl, by decide +kernel, rfl, ?_⟩, trivial, trivial⟩
   intro p slot h
   rw [hb _ _ _ h]; rfl
-example : shapeOk .base [(kAlpha, .atom .other "1")] = true ∧
-    ([(kAlpha, PVal.atom .other "1")].all (fun kv => !isEst kv.2)) = true := by decide +kernel
+example : wf stack12 = true ∧ keys [(kModels, PVal.ests []), (kMethod, PVal.atom .str "transform")]
+    = keys [(kModels, .ests ((List.range 12).map (fun j => learner (2 * j + 1) (lr (2 * j + 2))))), (kMethod, PVal.atom .str "predict")] := by
+  decide +kernel
 
 end MlVerif.C01
